@@ -102,7 +102,7 @@ func (nd *NdArrayTypeCommon) Contiguous() bool {
 				return false
 			}
 
-			if nd.Step[i] > 1 {
+			if nd.Step[i] != 1 {
 				return false
 			}
 
